@@ -224,6 +224,7 @@ func cmdParse(args []string) error {
 			Bud  json.RawMessage `json:"bud"`
 			Seed int             `json:"seed"`
 			Rt   bool            `json:"rt"`
+			Tree *expr.Expr      `json:"tree"`
 		}
 		if err := json.Unmarshal(sc.Bytes(), &c); err != nil {
 			return fmt.Errorf("bad case: %v: %s", err, trunc(sc.Text()))
@@ -257,8 +258,11 @@ func cmdParse(args []string) error {
 				add(&steps, "parser steps", c.Cnt, got.Cnt)
 			}
 		}
-		if c.Seed > 0 && c.Seed <= len(expect) {
-			want := expect[c.Seed-1]
+		if c.Tree != nil || (c.Seed > 0 && c.Seed <= len(expect)) {
+			want := c.Tree
+			if want == nil {
+				want = expect[c.Seed-1]
+			}
 			if !c.Rt {
 				add(&specround, "the specification does not read this rendering back as the tree it was rendered from", want, c.Obs)
 			}
